@@ -4,14 +4,14 @@
 // the struct's package (type-checked, -tags=verif, files named verif_* skipped) and emits
 // coq/Gen/Locks.v with
 //
-//   <short>_fields    : list field    every field of the struct (index, name, synchronisation object?)
-//   <short>_accesses  : list access   one row per use `x.f` of a data field: function, field,
-//                                     read/write, mutexes held (RLock = read mode; `defer Unlock`
-//                                     keeps the lock to the end of the function), atomic?, phase
-//                                     (Init = in the constructor before the first `go`), the thread
-//                                     roots that reach the row through the package-local call graph
-//   <short>_methods   : list meth     per function: acquisition sites, whole-body critical sections,
-//                                     entry lockset, composite flag
+//	<short>_fields    : list field    every field of the struct (index, name, synchronisation object?)
+//	<short>_accesses  : list access   one row per use `x.f` of a data field: function, field,
+//	                                  read/write, mutexes held (RLock = read mode; `defer Unlock`
+//	                                  keeps the lock to the end of the function), atomic?, phase
+//	                                  (Init = in the constructor before the first `go`), the thread
+//	                                  roots that reach the row through the package-local call graph
+//	<short>_methods   : list meth     per function: acquisition sites, whole-body critical sections,
+//	                                  entry lockset, composite flag
 //
 // Everything is keyed on go/types objects (struct fields, *types.Func), never on names; names are
 // carried only for reading. Analysis rules, all of them conservative for lockset_ok:
@@ -26,6 +26,7 @@
 //     local alias or a method value, `defer` of a lock operation in a loop, an unlock of a lock
 //     this function does not hold, goto, a loop that changes the held set) produce a row with
 //     a_known = false, which fails lockset_ok (fail closed).
+//
 // Scope: the fields of the three structs. Heap objects reachable from them are covered only by
 // the -race harnesses.
 package main
